@@ -93,6 +93,45 @@ let register () =
         Printf.sprintf "%s %s %s %s %s" (token_of_n g.AuthGate.go_code) (token_of_n g.AuthGate.go_listed) (token_of_bool g.AuthGate.go_wrote)
           (token_of_bool g.AuthGate.go_kicked) (token_of_bool g.AuthGate.go_closed)
       | _ -> "bad-args");
+  (* end-to-end: the six ServerManager session callbacks, each with a real session object *)
+  Registry.register "c14.smcb" (function
+      | [flags; key; ovr; cb; stream; param; md5t; pq; low] ->
+        let f = int_of_string flags in
+        let cfg = { AuthSimple.sa_key = bytes_of_token key; sa_override = bytes_of_token ovr;
+                    sa_pub_rtmp = bit f 0; sa_sub_rtmp = bit f 1; sa_sub_flv = bit f 2; sa_sub_ts = bit f 3;
+                    sa_pub_rtsp = bit f 4; sa_sub_rtsp = bit f 5; sa_hls_m3u8 = bit f 6 } in
+        let pqv = parse_pq pq in
+        let cbn = n_of_token cb in
+        let r = AuthSimple.sa_decide_gen (fn_total "md5" md5t) (fun _ -> pqv) (fn_total "lower" low) fixed cfg
+            (AuthGate.callback_dir cbn) (AuthGate.callback_proto cbn) (bytes_of_token stream) (bytes_of_token param) in
+        let (code, att) = AuthGate.sm_callback cbn r in
+        (* OnNewRtspSubSessionDescribe returns a bool, not the error *)
+        let code = if cb = "5" && int_of_n code <> 0 then n_of_int 1 else code in
+        Printf.sprintf "%s %s" (token_of_n code) (token_of_bool att)
+      | _ -> "bad-args");
+  (* end-to-end: ServerManager.serveHls histories (requests / add_ip_blacklist / clock) *)
+  Registry.register "c14.servehls" (function
+      | [flags; key; ovr; scen; md5t; pqt; low] ->
+        let f = int_of_string flags in
+        let cfg = { AuthSimple.sa_key = bytes_of_token key; sa_override = bytes_of_token ovr;
+                    sa_pub_rtmp = bit f 0; sa_sub_rtmp = bit f 1; sa_sub_flv = bit f 2; sa_sub_ts = bit f 3;
+                    sa_pub_rtsp = bit f 4; sa_sub_rtsp = bit f 5; sa_hls_m3u8 = bit f 6 } in
+        let pqtab = table "pq" pqt in
+        let pqf = fun q -> parse_pq (lookup "pq" pqtab q) in
+        String.concat "|" (Stdlib.List.map (fun sc ->
+            let ops = Stdlib.List.map (fun o ->
+                match String.split_on_char ':' o with
+                | ["G"; ip; path; q; _uri] -> AuthServeHls.ShGet (bytes_of_token ip, bytes_of_token path, bytes_of_token q)
+                | ["B"; ip; d] -> AuthServeHls.ShBlacklist (bytes_of_token ip, z_of_token d)
+                | ["S"; s] -> AuthServeHls.ShSleep (z_of_token s)
+                | _ -> failwith "bad servehls op") (String.split_on_char ',' sc) in
+            let rs = AuthServeHls.sh_run (fn_total "md5" md5t) pqf (fn_total "lower" low) cfg (sb_root ()) [] (z_of_int 1000) ops in
+            if rs = [] then "-" else String.concat "," (Stdlib.List.map (function
+                | AuthServeHls.HrFile p -> if Stdlib.List.mem (string_of_bytes p) sb_files then "200:" ^ hex_of_bytes p else "404"
+                | AuthServeHls.HrInvalid -> "302"
+                | AuthServeHls.HrBlocked -> "404"
+                | AuthServeHls.HrAuthFail -> "200-empty") rs)) (String.split_on_char '|' scen))
+      | _ -> "bad-args");
   Registry.register "c14.secret" (function
       | [key; stream; md5t] -> hex_of_bytes (AuthSimple.calc_secret (fn_total "md5" md5t) (bytes_of_token key) (bytes_of_token stream))
       | _ -> "bad-args");
